@@ -472,6 +472,21 @@ def replay(pid, path):
             print("DISAGREEMENT:", d)
         print("reported violation:", v.get("what"))
         return 1 if (h["dis"] or h["structure"] or any(h["exc"])) else 0
+    API_STREAMS = {"readonly-queries": "run_readonly_queries", "add-labor-cost": "run_add_labor_cost_flags", "nonfinite-json": "run_nonfinite_json",
+                   "class-level-edits": "run_class_level_edits", "placement-after-insert": "run_placement_logs_after_insert",
+                   "cost-sums-after-class-inserts": "run_cost_sums_after_class_inserts"}
+    if st in API_STREAMS and "index" in v["case"] and "seed" in v["case"]:
+        # API-corner streams derive every choice from (seed, index): re-run the stream up to that index on the real code
+        import types
+        import apistream
+        c2 = types.SimpleNamespace(seed=v["case"]["seed"], pid=pid, violations=[], evaluations=0, traces_validated=0,
+                                   distribution={}, rule="")
+        getattr(apistream, API_STREAMS[st])(c2, v["case"]["index"] + 1)
+        hits = [x for x in c2.violations if x["case"].get("index") == v["case"]["index"]]
+        print(json.dumps(dict(stream=st, seed=v["case"]["seed"], index=v["case"]["index"], spec=v["case"].get("spec")), default=str)[:4000])
+        for x in hits:
+            print("VIOLATION-REPLAYED:", x["what"])
+        return 1 if hits else 0
     if "spec" not in v["case"] and "seed" not in v["case"]:
         print("this replay is a history/pure-function case; its full description:")
         print(json.dumps(v, indent=1, default=str)[:4000])
@@ -759,5 +774,6 @@ def with_api(inner, fn_name, quick, thorough):
 REGISTRY["C08"]["run"] = with_api(REGISTRY["C08"]["run"], "run_readonly_queries", 60, 2000)
 REGISTRY["C07"]["run"] = with_api(REGISTRY["C07"]["run"], "run_add_labor_cost_flags", 60, 2000)
 REGISTRY["C18"]["run"] = with_api(REGISTRY["C18"]["run"], "run_class_level_edits", 80, 3000)
+REGISTRY["C07"]["run"] = with_api(REGISTRY["C07"]["run"], "run_cost_sums_after_class_inserts", 80, 3000)
 REGISTRY["C13"]["run"] = with_api(REGISTRY["C13"]["run"], "run_placement_logs_after_insert", 80, 3000)
 REGISTRY["C16"]["run"] = with_api(REGISTRY["C16"]["run"], "run_nonfinite_json", 40, 1000)
